@@ -12,4 +12,3 @@ INVARIANT TypeOK
 INVARIANT Acyclic
 INVARIANT FrozenStable
 INVARIANT FrozenClosed
-INVARIANT RangeSelfTest
